@@ -17,6 +17,8 @@ pub mod c11;
 pub mod c12;
 pub mod c13;
 pub mod c14;
+pub mod c16;
+pub mod c17;
 pub mod c18;
 pub mod c19;
 pub mod stream_model;
@@ -200,6 +202,32 @@ pub fn all() -> Vec<PropDef> {
             ],
             run: c14::run,
             replay: c14::replay,
+            child: None,
+        },
+        PropDef {
+            id: "C16",
+            level: "exploration",
+            rule: c16::RULE,
+            assumptions: &[
+                "saturation is established by waiting for the handlers' own 'running' signals, not by timing",
+                "a 10 s watchdog stands for 'answered immediately' / 'never answered'",
+                "the connection is driven in-process over tokio::io::duplex (adopt_upgraded + serve_connection)",
+            ],
+            run: c16::run,
+            replay: c16::replay,
+            child: None,
+        },
+        PropDef {
+            id: "C17",
+            level: "exploration",
+            rule: c17::RULE,
+            assumptions: &[
+                "limits are at least 1 KiB, large enough to carry the replacement error reply (the property's precondition)",
+                "limits up to 1 MiB in quick and 16 MiB in thorough",
+                "server-side paths are driven in-process over tokio::io::duplex via adopt_upgraded/serve_connection; the client paths use a real loopback WebSocket",
+            ],
+            run: c17::run,
+            replay: c17::replay,
             child: None,
         },
         PropDef {
